@@ -25,7 +25,8 @@ def correspondence(ctx):
                 "recipes every index vector in [0,a)^L is run (raw word = index), then every second-attempt vector after chosen "
                 "invalid first candidates. Non-trivial = distinct (recipe, tape) forcing a raw-word or candidate rejection or a "
                 "boundary index; each distinct cell vector counts once.")
-    ctx.gen_results = chargen.run_chargen_family(ctx, 250 if ctx.tier == "quick" else 3000)
+    recs = [chargen.gen_recipe(ctx.rng) for _ in range(250 if ctx.tier == "quick" else 3000)] + chargen.many_sets_recipes()
+    ctx.gen_results = chargen.run_chargen_family(ctx, 0, recipes=recs)
 
 
 def cell_lines(r, prefix_vectors, suffix, budget=chargen.DEFAULT_BUDGET):
@@ -117,20 +118,10 @@ def oracle(ctx, deep):
                 continue
         # which string: the first candidate on the stream that satisfies the recipe, each candidate being Length draws into the
         # sorted alphabet — the process whose outcomes are equally likely; any other way of arriving at a (valid) string is not
-        if not d or d["outcome"] not in ("ok", "err"):
-            continue
-        r, budget = meta["_recipe"], meta["budget"]
-        if r.length < 1 or not r.alphabet() or (d["outcome"] == "err" and "exhausted" not in a.split(" stdout=")[0]):
-            continue
-        kind, cand, nbytes = chargen.simulate(r, budget, meta["_words"])
-        if kind == "ok" and d["outcome"] == "ok" and out is not None and "".join(out) != "".join(cand):
-            ctx.violations.append({"finding_key": "C02-process", "recipe": meta["recipe"], "budget": budget, "observed": a[:300],
-                                   "line": chargen.chargen_line(r, budget, meta["_words"]),
-                                   "what": "the returned string %r is not the first satisfying candidate of its stream (%r): candidates are not Length uniform draws into the sorted alphabet" % ("".join(out)[:40], "".join(cand)[:40])})
-        elif kind == "ok" and d["outcome"] == "err":
-            ctx.violations.append({"finding_key": "C02-process", "recipe": meta["recipe"], "budget": budget, "observed": a[:300],
-                                   "line": chargen.chargen_line(r, budget, meta["_words"]),
-                                   "what": "generation gave up although attempt %d of the %d permitted ones on the stream (%r) satisfies the recipe" % (nbytes // (4 * r.length), budget[0], "".join(cand)[:40])})
+        msg = chargen.process_verdict(meta, a) if a else None
+        if msg:
+            ctx.violations.append({"finding_key": "C02-process", "recipe": meta["recipe"], "budget": meta["budget"], "observed": a[:300],
+                                   "line": chargen.chargen_line(meta["_recipe"], meta["budget"], meta["_words"]), "what": msg})
 
 
 def replay(v):
